@@ -294,6 +294,12 @@ func (a *Accounts) ToMsg(signer int, m *MsgSpec) (sdk.Msg, error) {
 	case "reporter_update_params":
 		mc, _ := math.LegacyNewDecFromStr("0")
 		return &reportertypes.MsgUpdateParams{Authority: me, Params: reportertypes.Params{MinCommissionRate: mc, MinTrb: parseInt(m.N), MaxSelectors: m.U}}, nil
+	case "staking_update_params":
+		sp := stakingtypes.DefaultParams()
+		sp.BondDenom = Denom
+		sp.MaxValidators = uint32(m.U)
+		sp.UnbondingTime = time.Duration(a.c.Cfg.UnbondingSec) * time.Second
+		return &stakingtypes.MsgUpdateParams{Authority: me, Params: sp}, nil
 	case "update_dataspec":
 		return &registrytypes.MsgUpdateDataSpec{Authority: me, QueryType: m.S, Spec: m.Spec.dataSpec()}, nil
 	// ---- sdk messages ----
@@ -393,6 +399,8 @@ func (a *Accounts) toMsgAuthority(m *MsgSpec, authority string) (sdk.Msg, error)
 	case *reportertypes.MsgUpdateParams:
 		x.Authority = authority
 	case *registrytypes.MsgUpdateDataSpec:
+		x.Authority = authority
+	case *stakingtypes.MsgUpdateParams:
 		x.Authority = authority
 	}
 	return msg, nil
